@@ -348,6 +348,8 @@ def deviation_class(case):
         cls.append("empty-header-value")
     if rq["method"] in ("DELETE", "GET") and rq.get("form") is not None:
         cls.append("form-on-bodyless-verb")
+    if rq.get("form") and set(k for k, _ in rq["form"]) & set(k for k, _ in rq["query"]):
+        cls.append("form-query-share-wire-name")
     return sorted(set(cls))
 
 
